@@ -3637,6 +3637,8 @@ func (e *ExpressionEmitter) emitExpression(handle ir.ExpressionHandle) (uint32, 
 		id, err = e.emitMath(kind)
 	case ir.ExprDerivative:
 		id, err = e.emitDerivative(kind)
+	case ir.ExprRelational:
+		id, err = e.emitRelational(kind)
 	case ir.ExprImageSample:
 		id, err = e.emitImageSample(kind)
 	case ir.ExprImageLoad:
@@ -5291,6 +5293,55 @@ func (e *ExpressionEmitter) dereferencePointerType(res ir.TypeResolution) (uint3
 }
 
 // emitUnary emits a unary operation.
+// emitRelational emits all()/any()/isNan()/isInf() on a run-time operand.
+func (e *ExpressionEmitter) emitRelational(rel ir.ExprRelational) (uint32, error) {
+	argID, err := e.emitExpression(rel.Argument)
+	if err != nil {
+		return 0, err
+	}
+	argType, err := ir.ResolveExpressionType(e.backend.module, e.function, rel.Argument)
+	if err != nil {
+		return 0, fmt.Errorf("relational argument type: %w", err)
+	}
+	inner := argType.Value
+	if argType.Handle != nil {
+		inner = e.backend.module.Types[*argType.Handle].Inner
+	}
+	boolScalar := ir.ScalarType{Kind: ir.ScalarBool, Width: 1}
+	vec, isVec := inner.(ir.VectorType)
+	switch rel.Fun {
+	case ir.RelationalAll, ir.RelationalAny:
+		if !isVec {
+			// all(bool) / any(bool) are the identity on a scalar
+			return argID, nil
+		}
+		boolType, err := e.backend.emitScalarType(boolScalar)
+		if err != nil {
+			return 0, err
+		}
+		opcode := OpAll
+		if rel.Fun == ir.RelationalAny {
+			opcode = OpAny
+		}
+		return e.backend.builder.AddUnaryOp(opcode, boolType, argID), nil
+	case ir.RelationalIsNan, ir.RelationalIsInf:
+		resultType, err := e.backend.emitScalarType(boolScalar)
+		if err != nil {
+			return 0, err
+		}
+		if isVec {
+			resultType = e.backend.emitVectorType(resultType, uint32(vec.Size))
+		}
+		opcode := OpIsNan
+		if rel.Fun == ir.RelationalIsInf {
+			opcode = OpIsInf
+		}
+		return e.backend.builder.AddUnaryOp(opcode, resultType, argID), nil
+	default:
+		return 0, fmt.Errorf("unsupported relational function: %v", rel.Fun)
+	}
+}
+
 func (e *ExpressionEmitter) emitUnary(unary ir.ExprUnary) (uint32, error) {
 	operandID, err := e.emitExpression(unary.Expr)
 	if err != nil {
